@@ -1117,8 +1117,27 @@ func accessPathN(v ssa.Value, depth int) string {
 		return accessPathN(x.X, depth+1) + "[" + accessPathN(x.Index, depth+1) + "]"
 	case *ssa.Slice:
 		return accessPathN(x.X, depth+1) + "[:]"
+	case *ssa.BinOp:
+		return "(" + accessPathN(x.X, depth+1) + " " + x.Op.String() + " " + accessPathN(x.Y, depth+1) + ")"
+	case *ssa.Convert:
+		return accessPathN(x.X, depth+1)
+	case *ssa.ChangeType:
+		return accessPathN(x.X, depth+1)
+	case *ssa.MakeSlice:
+		return "make(slice)"
+	case *ssa.MakeMap:
+		return "make(map)"
+	case *ssa.MakeChan:
+		return "make(chan)"
+	case *ssa.MakeClosure:
+		return "closure " + x.Fn.Name()
+	case *ssa.Function:
+		return x.Name()
+	case *ssa.Builtin:
+		return x.Name()
 	}
-	return v.Name()
+	// never an SSA register name: obligation keys must not change when unrelated code moves
+	return "<" + strings.TrimPrefix(fmt.Sprintf("%T", v), "*ssa.") + ">"
 }
 
 // isFreshIn: v is a value allocated in its own function (composite literal,
